@@ -1,7 +1,7 @@
 # C05 — memory and db metadata stores expose the same filesystem
 PROPS["C05"] = dict(
     props_file="Properties/C05.v",
-    harnesses=[dict(cmd="stores", mod="cmdmod", model="Model.TreeStores", quick=60, thorough=5000, shard=20, coq_jobs=8, race=300,
+    harnesses=[dict(cmd="stores", mod="cmdmod", model="Model.TreeStores", quick=80, thorough=5000, shard=20, coq_jobs=8, race=300,
                     preamble="Open Scope Z_scope.",
                     require=["toc.builder-output", "toc.implicit-parent", "toc.repeated-dir", "toc.dir-after-child",
                              "toc.hardlink-to-hardlink", "toc.root-entry", "toc.respelled-name", "toc.empty-xattr",
